@@ -159,16 +159,26 @@ def r35_pointwise_definitions(facts):
     for b in _find_fn(facts, "softmax"):
         where = "%s:%d" % (F.rel(b["file"]), b["sp"][0])
         fw = _forward(facts, b)
+        ex_ = fw.alg.exp(fw.alg.atom("a0"))
+        want = ex_ / fw.alg.atom("sum[%r|1]" % ex_)
         try:
             val, _, _ = fw.ctor(b)
+            alts_ = fw.ev.alts(val)
             got, why = _single_arr(fw, val)
         except (Abstain, Unsupported, RecursionError) as ex:
-            got, why = None, str(ex)
+            got, why, alts_ = None, str(ex), []
+        if got is None and len(alts_) > 1 and all(a_[0] == "arr" for a_ in alts_):
+            # several possible values (a condition on the shape on the way): each is returned for some input, so each must be the documented one
+            off = [a_ for a_ in alts_ if not _same_safe(a_[1], want)]
+            n += 1
+            if off:
+                c.bad("softmax", where, "softmax(a0) is documented as %r but for some inputs the code computes %r" % (want, off[0][1]))
+            else:
+                c.ok("softmax", where, "softmax(a0) = %r on every path" % (want,))
+            continue
         if got is None:
             c.unk("softmax", where, "softmax is not a composition the algebra can read (%s)" % why)
             continue
-        ex_ = fw.alg.exp(fw.alg.atom("a0"))
-        want = ex_ / fw.alg.atom("sum[%r|1]" % ex_)
         n += 1
         _cmp(c, "softmax", where, got, want, "softmax(a0)")
     # ---- sum_all
@@ -294,24 +304,37 @@ def r34_documented_formulas(facts):
             c.unk("cost:%s" % nm, "-", "cost function %s not found as `Box::new(|output, target| ..)`" % nm)
             continue
         where = "%s:%d" % (F.rel(cb["file"]), cb["sp"][0])
+        stateful = [cap for cap in cb.get("captures", []) if (cap.get("walk") or {}).get("cells")]
+        if stateful:
+            c.bad("cost:%s#state" % nm, where, "the cost closure captures interior-mutable state (`%s`: %s): what it returns can depend on earlier calls (a scale or a size remembered from "
+                  "the first batch), so it is not a function of its output and target" % (stateful[0].get("var"), stateful[0].get("ty")))
         fw = _forward(facts, cb)
         out, tgt = fw.alg.atom("a0"), fw.alg.atom("a1")
         env = Env(None)
         ps = [p for p in facts.params(cb) if p.get("pat")]
         for p, v in zip(ps, [("arr", out), ("arr", tgt)]):
             fw.ev.bind(p["pat"], v, env)
-        try:
-            val = fw.ev.ev(facts.root(cb), env)
-            got, why = _single_arr(fw, val)
-        except (Abstain, Unsupported, RecursionError) as ex:
-            got, why = None, str(ex)
-        if got is None:
-            c.unk("cost:%s" % nm, where, "the cost closure is outside the algebra (%s)" % why)
-            continue
         if nm == "mse":
             want = (tgt - out).powlf(lf(2)) / fw.alg.atom("count[%r]" % out)
         else:
             want = (-tgt) * fw.alg.ln(out) / fw.alg.atom("dim0[%r]" % out)
+        try:
+            val = fw.ev.ev(facts.root(cb), env)
+            alts_ = fw.ev.alts(val)
+            got, why = _single_arr(fw, val)
+        except (Abstain, Unsupported, RecursionError) as ex:
+            got, why, alts_ = None, str(ex), []
+        if got is None and len(alts_) > 1 and all(a_[0] == "arr" for a_ in alts_):
+            off = [a_ for a_ in alts_ if not _same_safe(a_[1], want)]
+            n += 1
+            if off:
+                c.bad("cost:%s" % nm, where, "%s(output=a0, target=a1) is documented as %r but for some inputs the code computes %r" % (nm, want, off[0][1]))
+            else:
+                c.ok("cost:%s" % nm, where, "%s(output=a0, target=a1) = %r on every path" % (nm, want))
+            continue
+        if got is None:
+            c.unk("cost:%s" % nm, where, "the cost closure is outside the algebra (%s)" % why)
+            continue
         n += 1
         _cmp(c, "cost:%s" % nm, where, got, want, "%s(output=a0, target=a1)" % nm)
     # ---- layers
